@@ -343,3 +343,14 @@ def c14(run):
     trace, _ = run.exec("C14")
     run.validate("Trace_GCS", trace, timeout=5400)
     return finish(run, assumptions=GCS_ASSUME)
+
+
+# --------------------------------------------------------------------------- C18
+@prop("C18", "Trace_TxSort")
+def c18(run):
+    run.build()
+    run.mc("MC_TxSort")
+    trace, _ = run.exec("C18")
+    run.validate("Trace_TxSort", trace)
+    return finish(run, assumptions=["amounts are non-negative (compared as 8-byte big-endian strings)",
+                                    "elements with equal sort keys may appear in any order (sort.Sort is not stable)"])
